@@ -918,7 +918,7 @@ def shard_main(shard, nshards, tier, scale):
     cstrat = st.tuples(st.sampled_from(msgs_only).flatmap(lambda k: obj_spec(inv, k, 0)),
                        st.sampled_from(msgs_only).flatmap(lambda k: obj_spec(inv, k, 0)),
                        st.booleans(), st.integers(0, 1 << 30), st.sampled_from([0.02, 0.08, 0.3]))
-    hyp.run_given(cstrat, lambda t: check_concurrent(inv, t, rec), int((3000 if thorough else 200) * scale),
+    hyp.run_given(cstrat, lambda t: check_concurrent(inv, t, rec), int((1000 if thorough else 200) * scale),
                   derive_seed(PID, "concurrent", shard), rec=rec)
     from dv import sched as _sched
     _sched.clear()
